@@ -17,7 +17,7 @@
     (Uniform, DiscreteUniform) the spec is the predicate `IsMode`; statrs' documented choice of one
     of them is a separate definition `modeConvention`.
   * A median that has no closed form is given as a predicate `IsMedian`; where statrs DOCUMENTS an
-    approximation (χ² median, Binomial median `⌊np⌋`, Poisson median `⌊λ + 1/3 − 0.02/λ⌋`) the
+    approximation (χ² median, Binomial median `⌊np⌋`, Poisson median `max(0, ⌊λ + 1/3 − 0.02/λ⌋)`) the
     approximation gets its OWN definition (`medianApprox…`) with its cut-over — the two are never
     identified.  A family for which there is no closed form and statrs implements no `Median`
     (Beta, Chi, Erlang, FisherSnedecor, Gamma, Hypergeometric, InverseGamma, NegativeBinomial) has
@@ -371,9 +371,10 @@ def pmf (l : ℝ) (k : ℕ) : ℝ := Real.exp (-l) * l ^ k / (k.factorial : ℝ)
     `λ − ln 2 ≤ m < λ + 1/3`. -/
 def IsMedian (l : ℝ) (m : ℕ) : Prop :=
   1 / 2 ≤ ∑ k ∈ Finset.range (m + 1), pmf l k ∧ ∑ k ∈ Finset.range m, pmf l k ≤ 1 / 2
-/-- statrs' documented formula `⌊λ + 1/3 − 0.02/λ⌋` (Wikipedia: `≈ ⌊λ + 1/3 − 1/(50λ)⌋`).
-    An approximation, NOT always a median (it is `−1` for small λ). -/
-def medianApprox (l : ℝ) : ℤ := ⌊l + 1 / 3 - 1 / (50 * l)⌋
+/-- statrs' documented formula `max(0, ⌊λ + 1/3 − 0.02/λ⌋)` (Wikipedia: `≈ ⌊λ + 1/3 − 1/(50λ)⌋`,
+    which goes negative for λ < 0.0554; the support starts at 0, so it is clamped there).
+    An approximation: no claim that it is a median for every λ. -/
+def medianApprox (l : ℝ) : ℤ := max 0 ⌊l + 1 / 3 - 1 / (50 * l)⌋
 /-- Poisson(λ): mode `⌊λ⌋` (for integer λ also `λ − 1`; the larger one is reported). -/
 def mode (l : ℝ) : ℤ := ⌊l⌋
 /-- Poisson: support `{0, 1, 2, …}`. -/
